@@ -8,8 +8,13 @@ Local Open Scope N_scope.
 
 Record tmods := { m_ascii : bool; m_wide : bool; m_nocase : bool; m_fullword : bool; m_xor : option (N * N) }.
 
-Definition lower (b : N) : N := nth (N.to_nat b) lowercase_table b.
-Definition alnum (b : N) : bool := nth (N.to_nat b) isalnum_table false.
+(* The documented character classes: "alphanumeric" is 0-9 A-Z a-z, and case-insensitive comparison folds A-Z onto a-z.  The tables the
+   implementation uses (gen/GenTables.v, obtained from /repo's yr_isalnum / yr_lowercase on every run) are tied to these definitions by the
+   obligation [character_tables_are_documented] of Props/Properties_C01.v. *)
+Definition lower (b : N) : N := if (65 <=? b) && (b <=? 90) then b + 32 else b.
+Definition alnum (b : N) : bool := ((48 <=? b) && (b <=? 57)) || ((65 <=? b) && (b <=? 90)) || ((97 <=? b) && (b <=? 122)).
+Definition table_lower (b : N) : N := nth (N.to_nat b) lowercase_table b.
+Definition table_alnum (b : N) : bool := nth (N.to_nat b) isalnum_table false.
 
 Definition byte_eq (nocase : bool) (x y : N) : bool := if nocase then lower x =? lower y else x =? y.
 
